@@ -2,7 +2,8 @@
 (* Abstract specification of error unwinding (property C05).
 
    An evaluation is a stack of regions (plain call, call_other, function pointer, efun callbacks
-   filter/map/sort, catch, create() of a clone, init() of a move).  Every region logs the
+   filter/map/sort, catch, create() of a clone, create() of an object being loaded, init() of a
+   move, the move_or_destruct() hook applied by destruct() of a container).  Every region logs the
    LPC-visible machine context (call depth, this_player, this_object) when it is entered; the
    same context must be observed when it is left and, for a catch region, right after the catch
    whether or not something was caught.  An error (raised explicitly, or injected by the H1
@@ -79,5 +80,7 @@ Poll(regs) ==
   /\ IF base = <<>> THEN base' = regs ELSE regs = base /\ base' = base
   /\ UNCHANGED <<stk, raised, fault, running>>
 
-Probe(c1, c2, sum, depthOk) == /\ c1 = 1 /\ c2 = "p" /\ sum = 5 /\ depthOk /\ UNCHANGED vars
+\* chain: a chain of nested loads exactly as deep as the configured limit still loads (load_object's depth guard is back at
+\* its value); dt: an unrelated object can be destructed (destruct's move_or_destruct restriction is not left behind)
+Probe(c1, c2, sum, chain, dt, depthOk) == /\ c1 = 1 /\ c2 = "p" /\ sum = 5 /\ chain = 1 /\ dt = 1 /\ depthOk /\ UNCHANGED vars
 =============================================================================
